@@ -127,13 +127,18 @@ CHECKS = {
  "C08": ("In the model a non-recycling validator is a pure function of (definition, value), so the theorems about repetition are definitional; "
          "what carries the property is (T1) decide-obligations on tables regenerated from the source: every range loop of the validator files "
          "that can be left early ranges over a slice/array of child validators or is an existence search (no verdict depends on Go's map order), and "
-         "the fields of the shared options object are assigned only by the option setters and once at the top of SpecValidator.Validate; and (T2) "
-         "repeated use of one real validator object compared with its first answer, with a fresh validator and with the model (verdict, error set, match count).",
+         "the fields of the shared options object are assigned only by the option setters and once at the top of SpecValidator.Validate, every "
+         "assignment through the receiver inside a Validate/validate*/Applies method sits under the recycling option, and no mutating Result method is "
+         "called on a value that came back from a child's Validate (possibly the shared empty result); and (T2) "
+         "repeated use of one real validator object compared with its first answer and with the model (verdict, error set, match count), and the reuse "
+         "family: 1-3 long-lived schema / parameter / header validators built without recycling, 4-12 calls in any order with repeats, each compared "
+         "with a freshly built validator on that value and with every earlier identical call.",
          "Lean 4 model purity + regenerated exit-range and option-write facts + repeated-use correspondence", "DESIGN.md §6 C08, §14"),
  "C12": ("Kernel-checked obligation over a table of every index/deref/field write and in-place expansion call site regenerated from the "
          "Go sources on every run (each must target validator-owned memory or be a documented expansion), plus deep before/after snapshots "
          "of instance and schema on every generated case, of doc.Raw() for every validated document and of the parsed doc.Spec() for accepted "
-         "documents without self-referential definitions. Partial: aliasing is decided by a syntactic classification, not a heap semantics.",
+         "documents without self-referential definitions; the default and example stages must walk copies of the document's definitions "
+         "(regenerated fact definitionWalks). Partial: aliasing is decided by a syntactic classification, not a heap semantics.",
          "regenerated write-site table checked by decide + snapshot correspondence", "DESIGN.md §6 C12"),
  "C17": ("Kernel-checked theorems: validity is the absence of errors and the one-shot composite lists exactly the result's duplicate-free "
          "errors (with C20); and, by mutual structural induction through every sub-validator, for every schema (no vocabulary condition), "
